@@ -77,6 +77,8 @@ def as_slice(I, v):
         return v
     if isinstance(v, Ref):
         inner = I.load_ref(v)
+        if isinstance(inner, ArrBuf):
+            return SliceRef(v, usize(0), inner.len)
         if isinstance(inner, (VecV, Agg)):
             return SliceRef(v, usize(0), usize(len(I.container_items(inner))),
                             isinstance(inner, VecV) and inner.is_string)
@@ -170,7 +172,7 @@ def m_get(I, fr, callee, m, args):
     return NONE
 
 
-@model(r'^core::slice::<impl \[.*\]>::(len|is_empty)$|^core::str::<impl str>::(len|is_empty)$|^(?:Vec<.*>|String)::(len|is_empty)$')
+@model(r'^core::slice::<impl \[.*\]>::(len|is_empty)$|^core::str::<impl str>::(len|is_empty)$|^(?:Vec::<.*>|String)::(len|is_empty)$')
 def m_len(I, fr, callee, m, args):
     s = as_slice(I, args[0])
     which = m.group(1) or m.group(2) or m.group(3)
